@@ -2649,7 +2649,10 @@ class CondTr(Generic[X, R], Trace[X, R]):
         return merged
 
     def get_args(self) -> Any:
-        return (self.check, *self.trs[0].get_args())
+        # (args, kwargs) as for every other trace: the condition is the first
+        # positional argument of a Cond, the branches' arguments follow.
+        args, kwargs = self.trs[0].get_args()
+        return ((self.check, *args), kwargs)
 
     def get_retval(self) -> R:
         return jnp.where(self.check, *map(get_retval, self.trs))
